@@ -18,6 +18,7 @@ use num_traits::Zero;
 use rayon::prelude::*;
 use refmodel::{n, q, r, Fmt, N};
 use serde_json::{json, Value};
+use std::sync::Arc;
 use sm9_core::{fast_pairing, pairing, Fq, Fq2, Fr, G2Prepared, Group, Gt, G1, G2};
 
 const CHUNK: u64 = 512;
@@ -273,41 +274,106 @@ fn digest(acc: &mut (u64, u64), s: &str) {
     acc.0 ^= 0xff;
     acc.0 = acc.0.wrapping_mul(0x100000001b3);
 }
-fn chunk_digests(d: &Driver) -> Vec<(String, u64)> {
-    let nchunks = (d.n + CHUNK - 1) / CHUNK;
-    (0..nchunks)
-        .into_par_iter()
-        .map(|c| {
-            let mut acc = (0xcbf29ce484222325u64, 0x1234567u64);
-            let mut panics = 0u64;
-            for i in c * CHUNK..((c + 1) * CHUNK).min(d.n) {
-                let r = (d.f)(i);
-                if r.contains("PANIC(") {
-                    panics += 1;
+/// per-case time limit of the oracle-free drivers (same knob as the explorers' watchdog)
+fn case_timeout() -> std::time::Duration {
+    std::time::Duration::from_secs(std::env::var("VERIF_CASE_TIMEOUT_S").ok().and_then(|s| s.parse().ok()).unwrap_or(30))
+}
+const HANG: &str = "NON-TERMINATION";
+/// chunk digests of one driver, or Err(index) of a case that did not return within the case timeout. The work
+/// runs on the rayon pool from a helper thread; this thread watches per-worker (start time, case index) slots.
+/// After an Err the stuck worker is abandoned: the caller must wind the process down.
+fn chunk_digests(d: &Arc<Driver>) -> Result<Vec<(String, u64)>, u64> {
+    use std::sync::atomic::{AtomicU64, Ordering::SeqCst};
+    let nslots = rayon::current_num_threads() + 1;
+    let slots: Arc<Vec<(AtomicU64, AtomicU64)>> = Arc::new((0..nslots).map(|_| (AtomicU64::new(0), AtomicU64::new(0))).collect());
+    let t0 = std::time::Instant::now();
+    let (tx, rx) = std::sync::mpsc::channel();
+    {
+        let (d, slots) = (d.clone(), slots.clone());
+        std::thread::spawn(move || {
+            let nchunks = (d.n + CHUNK - 1) / CHUNK;
+            let out: Vec<(String, u64)> = (0..nchunks)
+                .into_par_iter()
+                .map(|c| {
+                    let slot = &slots[rayon::current_thread_index().map(|i| i + 1).unwrap_or(0).min(slots.len() - 1)];
+                    let mut acc = (0xcbf29ce484222325u64, 0x1234567u64);
+                    let mut panics = 0u64;
+                    for i in c * CHUNK..((c + 1) * CHUNK).min(d.n) {
+                        slot.1.store(i, SeqCst);
+                        slot.0.store(t0.elapsed().as_millis() as u64 + 1, SeqCst);
+                        let r = (d.f)(i);
+                        slot.0.store(0, SeqCst);
+                        if r.contains("PANIC(") {
+                            panics += 1;
+                        }
+                        digest(&mut acc, &r);
+                    }
+                    (format!("{:016x}{:016x}", acc.0, acc.1), panics)
+                })
+                .collect();
+            let _ = tx.send(out);
+        });
+    }
+    let limit = case_timeout().as_millis() as u64;
+    loop {
+        match rx.recv_timeout(std::time::Duration::from_millis(250)) {
+            Ok(v) => return Ok(v),
+            Err(std::sync::mpsc::RecvTimeoutError::Timeout) => {
+                let now = t0.elapsed().as_millis() as u64 + 1;
+                for sl in slots.iter() {
+                    let st = sl.0.load(SeqCst);
+                    if st != 0 && now.saturating_sub(st) > limit {
+                        return Err(sl.1.load(SeqCst));
+                    }
                 }
-                digest(&mut acc, &r);
             }
-            (format!("{:016x}{:016x}", acc.0, acc.1), panics)
-        })
-        .collect()
+            Err(_) => panic!("transcript worker died"),
+        }
+    }
+}
+/// one record under the case timeout (the thread is abandoned on a hang)
+fn record_with_timeout(d: &Arc<Driver>, i: u64) -> String {
+    let (tx, rx) = std::sync::mpsc::channel();
+    let d = d.clone();
+    std::thread::Builder::new().stack_size(16 << 20).spawn(move || { let _ = tx.send((d.f)(i)); }).unwrap();
+    rx.recv_timeout(case_timeout()).unwrap_or_else(|_| HANG.to_string())
 }
 
-/// child side: print all chunk digests
+/// child side: print all chunk digests; a case that does not terminate ends the transcript with a "hang" entry
 pub fn transcript_main(seed: u64) {
     let ds = drivers(seed);
     let mut m = serde_json::Map::new();
-    for d in &ds {
-        let cd = chunk_digests(d);
-        m.insert(d.name.clone(), json!({"n": d.n, "chunks": cd.iter().map(|c| c.0.clone()).collect::<Vec<_>>(), "panics": cd.iter().map(|c| c.1).sum::<u64>()}));
+    for d in ds {
+        let d = Arc::new(d);
+        match chunk_digests(&d) {
+            Ok(cd) => {
+                m.insert(d.name.clone(), json!({"n": d.n, "chunks": cd.iter().map(|c| c.0.clone()).collect::<Vec<_>>(), "panics": cd.iter().map(|c| c.1).sum::<u64>()}));
+            }
+            Err(i) => {
+                m.insert("hang".into(), json!({"driver": d.name, "index": i}));
+                println!("{}", Value::Object(m));
+                std::process::exit(0);
+            }
+        }
     }
     println!("{}", Value::Object(m));
 }
 /// child side: print the full records of one chunk (or one case)
 pub fn records_main(seed: u64, driver: &str, from: u64, to: u64) {
     let ds = drivers(seed);
-    let d = ds.iter().find(|d| d.name == driver).expect("driver");
-    let recs: Vec<String> = (from..to.min(d.n)).map(|i| (d.f)(i)).collect();
+    let d = Arc::new(ds.into_iter().find(|d| d.name == driver).expect("driver"));
+    let mut recs: Vec<String> = vec![];
+    for i in from..to.min(d.n) {
+        let r = record_with_timeout(&d, i);
+        let hung = r == HANG;
+        recs.push(r);
+        if hung {
+            // the rest of the range is not executed (one abandoned thread is enough)
+            break;
+        }
+    }
     println!("{}", json!(recs));
+    std::process::exit(0);
 }
 
 fn child_json(args: &[String], seed: u64) -> Result<Value, String> {
@@ -317,22 +383,60 @@ fn child_json(args: &[String], seed: u64) -> Result<Value, String> {
     let last = txt.lines().rev().find(|l| l.starts_with('{') || l.starts_with('[')).ok_or_else(|| format!("no JSON from the dbg child (status {:?})", o.status.code()))?;
     serde_json::from_str(last).map_err(|e| e.to_string())
 }
+/// the dbg build's record of one case ("NON-TERMINATION" if it does not return there)
+fn child_record(driver: &str, i: u64, seed: u64) -> Result<String, String> {
+    let rs = child_json(&["records".into(), driver.to_string(), i.to_string(), (i + 1).to_string()], seed)?;
+    Ok(rs[0].as_str().unwrap_or("").to_string())
+}
 
-pub fn compare_transcripts(run: &Run) {
+/// returns false when a stuck worker thread had to be abandoned (the caller stops exploring)
+pub fn compare_transcripts(run: &Run) -> bool {
     let t0 = std::time::Instant::now();
     let child = match child_json(&["transcript".to_string()], run.seed) {
         Ok(v) => v,
         Err(e) => {
             run.machinery_error(format!("transcript of the dbg build: {}", e));
-            return;
+            return true;
         }
     };
-    let ds = drivers(run.seed);
+    let ds: Vec<Arc<Driver>> = drivers(run.seed).into_iter().map(Arc::new).collect();
+    // a case that does not terminate in one profile: compare with the other profile on exactly that case
+    let hang_case = |d: &Arc<Driver>, i: u64, rel: String, dbg: String| {
+        if rel == HANG && dbg == HANG {
+            run.machinery_error(format!(
+                "driver {} case {} does not terminate in either build profile: the profiles cannot be compared beyond it (termination is C07's subject)",
+                d.name, i
+            ));
+        } else {
+            let cls = if dbg == HANG { "debug-only-non-termination" } else { "release-only-non-termination" };
+            run.record_fail(
+                &format!("c18.transcript.{}", d.name),
+                i,
+                Bad { class: cls.into(), msg: format!("driver {} case {}: release build observes {} , dbg build observes {}", d.name, i, mccore::truncate(&rel, 300), mccore::truncate(&dbg, 300)) },
+                || json!({"op": "c18.case", "driver": d.name, "index": i}),
+            );
+        }
+    };
+    if let Some(h) = child.get("hang") {
+        let (name, i) = (h["driver"].as_str().unwrap_or("").to_string(), h["index"].as_u64().unwrap_or(0));
+        let d = ds.iter().find(|d| d.name == name).expect("driver");
+        let rel = record_with_timeout(d, i);
+        let abandoned = rel == HANG;
+        hang_case(d, i, rel, HANG.to_string());
+        return !abandoned;
+    }
     let mut cases = 0u64;
     let mut chunks = 0u64;
     let mut summary = vec![];
     for d in &ds {
-        let mine = chunk_digests(d);
+        let mine = match chunk_digests(d) {
+            Ok(m) => m,
+            Err(i) => {
+                let dbg = child_record(&d.name, i, run.seed).unwrap_or_else(|e| format!("(no record: {})", e));
+                hang_case(d, i, HANG.to_string(), dbg);
+                return false;
+            }
+        };
         let theirs = &child[&d.name];
         let tn = theirs["n"].as_u64().unwrap_or(0);
         if tn != d.n {
@@ -356,9 +460,15 @@ pub fn compare_transcripts(run: &Run) {
                     Ok(Value::Array(rs)) => {
                         for i in from..to {
                             let a = (d.f)(i);
-                            let b = rs[(i - from) as usize].as_str().unwrap_or("").to_string();
+                            let b = rs.get((i - from) as usize).and_then(|x| x.as_str()).unwrap_or("").to_string();
                             if a != b {
-                                let cls = if b.contains("PANIC(") && !a.contains("PANIC(") { "debug-only-panic" } else { "profile-dependent-result" };
+                                let cls = if b == HANG {
+                                    "debug-only-non-termination"
+                                } else if b.contains("PANIC(") && !a.contains("PANIC(") {
+                                    "debug-only-panic"
+                                } else {
+                                    "profile-dependent-result"
+                                };
                                 run.record_fail(
                                     &format!("c18.transcript.{}", d.name),
                                     i,
@@ -381,10 +491,14 @@ pub fn compare_transcripts(run: &Run) {
     run.add_counts(cases, cases * 2, cases);
     run.add_driver_summary(json!({"driver": "c18.transcript", "engine": "grid x 2 profiles", "cases": cases, "chunks_compared": chunks, "drivers": summary, "wall_s": t0.elapsed().as_secs_f64()}));
     eprintln!("[C18] transcript comparison         cases={:<10} chunks={:<8} {:.1}s", cases, chunks, t0.elapsed().as_secs_f64());
+    true
 }
 
 pub fn run(run: &Run) {
-    compare_transcripts(run);
+    if !compare_transcripts(run) {
+        // a worker thread is stuck in a library call that does not return: nothing more can be explored in this process
+        return;
+    }
     // (b) the oracle-carrying checks in the dbg build
     let ids: &[&str] = match run.tier {
         Tier::Quick => &["C06", "C07", "C13", "C12", "C14", "C04", "C05", "C10", "C15", "C09", "C11", "C16", "C01", "C03"],
@@ -445,11 +559,9 @@ pub fn replay(c: &Value) -> Result<(), Bad> {
     let driver = c["driver"].as_str().unwrap().to_string();
     let i = c["index"].as_u64().unwrap();
     let seed: u64 = std::env::var("VERIF_SEED").ok().and_then(|s| s.parse().ok()).unwrap_or(1);
-    let ds = drivers(seed);
-    let d = ds.iter().find(|d| d.name == driver).expect("driver");
-    let a = (d.f)(i);
-    let rs = child_json(&["records".into(), driver.clone(), i.to_string(), (i + 1).to_string()], seed).map_err(|e| panic!("dbg child: {}", e)).unwrap();
-    let b = rs[0].as_str().unwrap_or("").to_string();
+    let d = Arc::new(drivers(seed).into_iter().find(|d| d.name == driver).expect("driver"));
+    let a = record_with_timeout(&d, i);
+    let b = child_record(&driver, i, seed).map_err(|e| panic!("dbg child: {}", e)).unwrap();
     if a != b {
         return Err(Bad { class: "profile-dependent-result".into(), msg: format!("driver {} case {}: release {} , dbg {}", driver, i, mccore::truncate(&a, 300), mccore::truncate(&b, 300)) });
     }
